@@ -164,9 +164,6 @@ def _nontrivial(inp, out):
 # ---- monitor for general geometries: the real code only
 @guarded
 def _impl_monitor(inp):
-    from soundevent.arrays import get_coord_index
-    from soundevent.geometry import geometry_to_shapely
-    import shapely
     full = {}
     singles = {}
     for at in (False, True):
@@ -180,24 +177,8 @@ def _impl_monitor(inp):
             if is_err(o):
                 return o
             singles[at].append(_igrid(o["val"]["grid"]))
-    # index-space rings of the polygonal geometries (what rasterize hands to rasterio)
-    tmpl = _template(inp)
-    rings = []
-    for g in inp["geoms"]:
-        if g["type"] not in ("Polygon", "MultiPolygon", "BoundingBox", "TimeInterval"):
-            rings.append(None)
-            continue
-        sh = geometry_to_shapely(gen_geom.to_data(g))
-        polys = list(sh.geoms) if sh.geom_type == "MultiPolygon" else [sh]
-        rr = []
-        for p in polys:
-            for ring in [p.exterior] + list(p.interiors):
-                rr.append([[int(get_coord_index(tmpl, "time", x, raise_error=False)),
-                            int(get_coord_index(tmpl, "frequency", y, raise_error=False))]
-                           for x, y in ring.coords])
-        rings.append(rr)
     return {"val": {"full": {"plain": full[False], "touched": full[True]},
-                    "singles": {"plain": singles[False], "touched": singles[True]}, "rings": rings}}
+                    "singles": {"plain": singles[False], "touched": singles[True]}}}
 
 
 def _igrid(g):
@@ -237,9 +218,13 @@ def _holds_monitor(ctx, inp, out):
                 line_msg = line_msg or msg
             else:
                 return msg
-    for k, rr in enumerate(v["rings"]):
-        if rr is None:
+    # index-space rings of the polygonal geometries: the model's image (what rasterize hands to rasterio)
+    img = ctx.model("index_image", {"time": inp["time"], "freq": inp["freq"], "time_first": inp["time_first"],
+                                    "geoms": inp["geoms"], "all_touched": False})
+    for k, sh in enumerate(img["shapes"]):
+        if sh["type"] not in POLY_SHAPES:
             continue
+        rr = _shape_rings(sh)
         # all_touched=True burns every cell through whose interior the boundary passes
         touched = v["singles"]["touched"][k]
         for ring in rr:
